@@ -140,6 +140,24 @@ def mon_c08_infer(case, verdict, chk):
     # any other rejection is a `diff` of the driver and reported as such
 
 
+def mon_c08_optlist(case, verdict, chk):
+    """optional values as ITEMS of a list (tag x position x source produced or not): the run returns an output that conforms to
+    the inferred schema - no internal consistency error, no nil element inside a list"""
+    if case.get("kind") != "optlist":
+        return
+    tag = "optlist:%s:%s:%s" % (case.get("tag"), case.get("position"), "produced" if case.get("source_produced") else "absent")
+    chk.hist[tag] = chk.hist.get(tag, 0) + 1
+    replay = {"kind": "impl-counterexample", "case": case, "replay_harness": ["optlist"]}
+    what = "%s as %s of an output, source %s" % (case.get("tag"), case.get("position"), "produced" if case.get("source_produced") else "not produced")
+    if case.get("panic") or case.get("timeout"):
+        chk.violation("C08:panic", "a workflow with %s panicked or hung: %s" % (what, str(case.get("panic"))[:200]), replay)
+    elif case.get("accepted") and "bug:" in (case.get("err") or ""):
+        chk.violation("C08:bug-error:optional-list-item", "Prepare accepted a workflow with %s; the run failed with an internal consistency error: %s"
+                      % (what, case["err"][:300]), replay)
+    elif case.get("accepted") and case.get("nil_element"):
+        chk.violation("C08:nil-element-in-list", "a workflow with %s returned a list with a nil element: %s" % (what, case.get("returned")), replay)
+
+
 # ---- streams ---------------------------------------------------------------------------------------------------------------
 
 def _errcap(facts):
@@ -232,7 +250,11 @@ SPEC = {
                 {"name": "infer", "harness": lambda t, s: ["infer", "-n", str(20000 if t == "thorough" else 3000), "-seed", str(s + 41)],
                  "driver": lambda f: ["infer"], "monitor": mon_c08_infer,
                  "nontrivial": lambda c: c.get("kind") == "infer" and str(c.get("shape", "")).startswith(("list(list", "list(obj", "obj/2", "obj/3", "obj/4")),
-                 "sample": lambda c: {k: c.get(k) for k in ("id", "shape", "ty", "accepted", "accept_err", "infer_err")}}],
+                 "sample": lambda c: {k: c.get(k) for k in ("id", "shape", "ty", "accepted", "accept_err", "infer_err")}},
+                # optional values as items of a list: fixed matrix tag x position x source produced / absent, real engine
+                {"name": "optlist", "harness": lambda t, s: ["optlist"], "driver": None, "monitor": mon_c08_optlist,
+                 "nontrivial": lambda c: c.get("kind") == "optlist" and not c.get("source_produced"),
+                 "sample": lambda c: {k: c.get(k) for k in ("id", "tag", "position", "source_produced", "returned", "err")}}],
     "rule": ("run-loop histories generated by scripted providers over generated workflows (distinct = distinct workflow text + "
              "event history; non-trivial = at least one step does not end in success); whole-engine runs of generated workflows with "
              "the scripted deployer/plugin (distinct = distinct workflow text + input; non-trivial = some step does not succeed or more "
